@@ -66,9 +66,9 @@ def check_C18(ctx):
         rc, hrep, out, err = run_harness(["history", "-seed", str(ctx.seed), "-n", "6"])
         if hrep is not None:
             ctx.cov["struct_tag_annotation_probes"] = hrep.get("distribution", {}).get("user-type:embedded", 0)
-            for v in hrep["violations"][:4]:
-                if v.get("kind") == "user-type-tag":
-                    ctx.violation("struct-tag", v)
+            ctx.cov["tag_value_probes"] = hrep.get("distribution", {}).get("tag-values-ignored", 0) + hrep.get("distribution", {}).get("transplant:wildcard", 0)
+            for v in [x for x in hrep["violations"] if x.get("kind") == "user-type-tag" or (x.get("kind") == "transplant" and "wildcard" in x.get("what", ""))][:4]:
+                ctx.violation("struct-tag", v)
     if rep and rep["disagreements"]:
         # the translator and the compiled package disagree: the theorems speak about something else than the code
         d = [x for x in rep["disagreements"] if x["kind"] in ("constant", "tagMap")]
@@ -320,9 +320,8 @@ def check_C13(ctx):
         else:
             ctx.cov["evaluations"] += hrep["evaluations"]
             ctx.cov["encoder_sessions_and_user_types"] = {k: v for k, v in hrep.get("distribution", {}).items()}
-            for v in hrep["violations"][:5]:
-                if v.get("kind") in ("encoder-session", "user-type", "user-type-tag", "user-schema", "user-schema-bytes"):
-                    ctx.violation(v["kind"], v)
+            for v in [x for x in hrep["violations"] if x.get("kind") in ("encoder-session", "user-type", "user-type-tag", "user-schema", "user-schema-bytes")][:5]:
+                ctx.violation(v["kind"], v)
     if broken and not ctx.violations:
         ctx.violation("theorem", broken, found_input=False)
     return ctx.finish()
@@ -609,7 +608,7 @@ SESSION_PROJ = {
 SESSION_KINDS = {
     "C07": ("stuck", "unanswered-open", "timestamp"),
     "C08": ("serve-error", "serve-stuck"),
-    "C09": (),
+    "C09": ("session-id",),
     "C10": ("not-closed", "goroutine-leak", "stuck", "serve-stuck"),
     "C15": ("deadline",),
 }
